@@ -105,7 +105,7 @@ static void hook (void) {
   if ((kind == 2 || kind == 4) && (!command_giver || (command_giver->flags & O_DESTRUCTED)))
     fail_hist (kind == 4 ? "C08:destructed-object-given-commands" : "C08:destructed-command-giver:init", "%s() in O%d runs with this_player() = %s", kn[kind], self, command_giver ? "a destructed object" : "0");
   if (kind == 4) vx_count (C_VERBS, 1);
-  if (!choices_on || self < 0 || kind > 4) return;
+  if (!choices_on || self < 0) return;
   script v[40];
   int n = build_scripts (kind, self, v);
   int c = vx_choose (n, kn[kind]);
@@ -127,7 +127,7 @@ static void hook (void) {
 /* ------------------------------------------------------------------ abstract world, driven by the op records */
 enum { FR_MOVE, FR_DEST, FR_MOD };
 typedef struct { int type, ob, ok, implicit; } frame;
-static frame FR[64]; static int nFR, nested_restrict;
+static frame FR[64]; static int nFR, nested_restrict, last_script_kind, last_hb_id = -1;
 
 static int in_subtree (int x, int root) { for (int g = 0; x >= 0 && g < 8; x = M[x].parent, g++) if (x == root) return 1; return 0; }
 static int head_of (int x) { int h = -1; for (int i = 0; i < NOBJ; i++) if (live (i) && M[i].parent == x && (h < 0 || M[i].seq > M[h].seq)) h = i; return h; }
@@ -225,11 +225,14 @@ static void process_log (int op_failed) {
       if (!live (id)) fail_hist ("C08:model-desync", "verb record from O%d which the model has as not live (%d)", id, M[id].st);
     } else if (str_eq (w, "hb") || str_eq (w, "co")) {
       vx_obs ("  %s in O%d", w->u.string, id);
+      nFR = 0;                  /* a new driver-level callback: whatever was open was abandoned by an error */
+      if (w->u.string[0] == 'h') last_hb_id = id;
       if (!live (id)) fail_hist ("C08:model-desync", "%s record from O%d which the model has as not live (%d)", w->u.string, id, M[id].st);
       if (w->u.string[0] == 'c' && live (id)) M[id].co = 0;
     } else if (str_eq (w, "living")) { if (live (id)) { M[id].living = 1; M[id].lname = (id & 1) ? 2 : 1; } vx_obs ("  O%d becomes living \"%s\"", id, e->item[2].u.string); }
     else if (str_eq (w, "hb-on")) { int a = (int) num (e, 2); vx_obs ("  O%d calls set_heart_beat(1) (made to by O%d)", a, id); if (live (a)) M[a].hb = 1; }
     else if (str_eq (w, "timers")) { if (live (id)) { M[id].hb = 1; M[id].co = 1; } }
+    else if (str_eq (w, "hook-script")) last_script_kind = (int) num (e, 2);
     else if (str_eq (w, "fail")) vx_obs ("  scripted error() in O%d", id);
     else if (str_eq (w, "nop")) vx_obs ("  (script target gone, no-op)");
     else if (str_eq (w, "load-begin") || str_eq (w, "clone-begin")) { if (id >= 0) vx_count (C_REENTRANT_LOADS, 1); vx_obs ("  %s %s (by O%d)", w->u.string, e->item[2].u.string, id); }
@@ -428,8 +431,11 @@ static int top_apply (object_t *ob, const char *fn, int nargs, const char *desc)
   return failed;
 }
 
+static int heart_beat_fault;
 static void after_step (int failed, const char *desc, int expect_fail) {
   process_log (failed);
+  /* an error that left a heart_beat switches off that object's heart beat (C11) */
+  if (heart_beat_fault) { if (last_hb_id >= 0 && live (last_hb_id)) M[last_hb_id].hb = 0; heart_beat_fault = 0; }
   /* self-test 3 breaks the environment: a destructed object is put back into the name hash behind the driver's back */
   if (selftest == 3) for (int i = 0; i < NOBJ; i++) if (OB[i] && (OB[i]->flags & O_DESTRUCTED) && M[i].st == 2 && !lookup_object_hash (OB[i]->name)) { enter_object_hash (OB[i]); break; }
   if (nested_restrict && !failed) fail_hist ("C08:model-desync", "%s: expected the nested move_or_destruct restriction to raise an error", desc);
@@ -441,16 +447,21 @@ static void after_step (int failed, const char *desc, int expect_fail) {
   observe (desc);
 }
 
-static void do_tick (void) {
+static int do_tick (void) {
   error_context_t econ;
   volatile int err = 0;
+  svalue_t *e0 = safe_apply_master_ob ("query_errors", 0);
+  int n0 = (e0 && e0 != (svalue_t *) -1 && e0->type == T_ARRAY) ? e0->u.arr->size : 0;
   hx_clock += 2;
   heart_beat_flag = 1;
   save_context (&econ);
   if (setjmp (econ.context)) { restore_context (&econ); err = 1; }
   else { eval_cost = CONFIG_INT (__MAX_EVAL_COST__); vw_call_heart_beat (); }
   pop_context (&econ);
-  if (err) fail_hist ("C08:unexpected-error", "an error left the heart-beat/call_out round: %s", hx_master_str ("query_last_error"));
+  if (err && !scripts_run) fail_hist ("C08:unexpected-error", "an error left the heart-beat/call_out round: %s", hx_master_str ("query_last_error"));
+  svalue_t *e1 = safe_apply_master_ob ("query_errors", 0);
+  int n1 = (e1 && e1 != (svalue_t *) -1 && e1->type == T_ARRAY) ? e1->u.arr->size : 0;
+  return err ? 1 : (n1 != n0 ? 2 : 0);
 }
 
 static void set_valid_object (int v) { push_constant_string ("valid_object"); push_number (v); hx_apply (master_ob, "set_policy", 2); }
@@ -460,7 +471,7 @@ typedef struct { int t, x, y; } top;
 
 static void run_top (top o) {
   char desc[120];
-  int failed = 0, expect_fail = 0;
+  int failed = 0, expect_fail = 0, tick_err = 0;
   vx_count (C_STEPS, 1);
   scripts_run = fails_run = 0;
   switch (o.t) {
@@ -497,7 +508,7 @@ static void run_top (top o) {
     push_number (o.x); push_number (8); failed = top_apply (LOGGER, "top", 2, desc); break;
   case T_TICK:
     snprintf (desc, sizeof desc, "tick"); vx_obs ("%s", desc);
-    ticks_done++; do_tick (); break;
+    ticks_done++; last_hb_id = -1; tick_err = do_tick (); failed = tick_err != 0; break;
   case T_CLEANUP:
     snprintf (desc, sizeof desc, "remove_destructed_objects"); vx_obs ("%s", desc);
     remove_destructed_objects ();
@@ -506,6 +517,7 @@ static void run_top (top o) {
     break;
   default: return;
   }
+  if (tick_err == 1) heart_beat_fault = 1;
   after_step (failed, desc, expect_fail);
 }
 
